@@ -50,9 +50,13 @@ ANCHORS = [
     ("device", "Attribute.__getitem__"), ("device", "Attribute.__setitem__"), ("device", "Attribute.produce"),
     ("device", "Message_Router.request"), ("device", "Connection_Manager.request"), ("device", "Object.request"),
     ("device", "state_multiple_service.terminate"), ("device", "lookup"), ("device", "resolve"), ("device", "resolve_tag"),
-    ("logix", "Logix.request"), ("logix", "Logix.reply_elements"), ("logix", "process"), ("logix", "setup"),
+    ("logix", "Logix.request"), ("logix", "Logix.reply_elements"), ("logix", "process"), ("logix", "setup"), ("logix", "Logix.produce"),
+    ("parser", "typed_data.produce"), ("parser", "TYPE.produce"), ("parser", "BOOL.produce"),
     ("ucmm", "UCMM.request"),
 ]
+
+
+FULL_LINE_FUNCTIONS = ("typed_data.produce", "Attribute.produce", "TYPE.produce", "BOOL.produce")
 
 
 def _code_objects(fn):
@@ -223,7 +227,7 @@ EXCLUDE_AST = ("config", "produce", "register_service_parser", "__init__", "__re
 
 
 def watch_codes(M):
-    mods = {"automata": M.cpppo.automata, "device": M.device, "logix": M.logix, "ucmm": M.ucmm}
+    mods = {"automata": M.cpppo.automata, "device": M.device, "logix": M.logix, "ucmm": M.ucmm, "parser": M.parser}
     codes, names = [], []
     for mname, qual in ANCHORS:
         fn = resolve_qual(mods[mname], qual)
@@ -296,6 +300,11 @@ def env(n=N, gran="G1"):
         if ls is None:
             raise core.HarnessError("no source for %s" % module)
         keep[module.__file__] = ls
+    # the element-by-element encoding of a reply iterates over what a read returned: every line there is a point (a read that
+    # hands out the live list instead of a copy is only torn while the reply is being produced)
+    for c in codes:
+        if c.co_qualname.startswith(FULL_LINE_FUNCTIONS):
+            keep.setdefault(c.co_filename, set()).update(ln for _, _, ln in c.co_lines() if ln)
     watch = sched.LineWatch(codes if gran != "G0" else [], keep=keep)
     watch.start()
     _env.update(key=key, S=S, M=M, watch=watch, watch_names=names, nlocks=nlocks)
